@@ -57,9 +57,11 @@ def run_vx(repo, unit, outdir, canary=False):
     return res
 
 
-def generate(repo, unit, outdir, canary=False):
+def generate(repo, unit, outdir, canary=False, partial=False):
+    """partial=True: items whose anchors are lost are left out (listed in res["errors"]) and the rest is still assembled --
+    an item that cannot be extracted must not hide a failing obligation of its neighbours"""
     res = run_vx(repo, unit, outdir, canary)
-    if res["errors"]:
+    if res["errors"] and not (partial and res.get("items")):
         raise Undecided("extraction: " + "; ".join(e["kind"] + ": " + e["msg"] for e in res["errors"]))
     prelude_path = os.path.join(VERIF, "contracts", "verus", unit["prelude"])
     prelude = open(prelude_path).read()
